@@ -6,35 +6,8 @@
    on Coq's primitive floats for all of them (used only by the correspondence
    check, which calls the real kernels on the same points). *)
 From Coq Require Import List ZArith NArith Bool Floats Uint63.
+From Verif Require Export RangeOrd.
 Import ListNotations.
-
-(* ---- order-based kernels, generic ------------------------------------------------ *)
-
-Section Order.
-  Variable V : Type.
-  Variable lt : V -> V -> bool.      (* IEEE < *)
-  Variable isnan : V -> bool.
-
-  (* maxOverTime: a later value replaces the candidate if it is greater or the candidate is NaN *)
-  Definition max_over (first : V) (rest : list V) : V :=
-    fold_left (fun m v => if lt m v || isnan m then v else m) rest first.
-  Definition min_over (first : V) (rest : list V) : V :=
-    fold_left (fun m v => if lt v m || isnan m then v else m) rest first.
-
-  (* changes: consecutive values that differ, two NaN counting as equal *)
-  Variable eqb : V -> V -> bool.     (* IEEE == *)
-  Fixpoint changes_from (prev : V) (rest : list V) : nat :=
-    match rest with
-    | [] => 0
-    | v :: r => (if negb (eqb v prev) && negb (isnan v && isnan prev) then 1 else 0) + changes_from v r
-    end.
-
-  Fixpoint resets_from (prev : V) (rest : list V) : nat :=
-    match rest with
-    | [] => 0
-    | v :: r => (if lt v prev then 1 else 0) + resets_from v r
-    end.
-End Order.
 
 (* ---- the float instance ----------------------------------------------------------- *)
 
